@@ -75,6 +75,29 @@ def cases(tier, seed):
         cs.append(Case("scr-%d" % i, ops, ("scripts",)))
     cs.append(Case("refusals", ["ep.big get o", "ep.big get c", "ep.big put o", "ep.big put c", "ep.get o 0102 - 0", "ep.get c 0102 k1 0",
                                 "ep.put o - -", "ep.put c k1 -", "ep.getmost c 0102 - 0"], ("refusal",)))
+    # the library's own buffer-backed endpoints (source_from_buffer / sink_to_buffer) in place of scripted drivers: the
+    # source hands out what the buffer holds (like a chunk driver without script), the sink takes a chunk whole or
+    # refuses it with ENOMEM - the script on the line says the same for the model
+    ops = []
+    for slen in (0, 1, 2, 5, 8):
+        for n in range(0, slen + 3):
+            ops.append("ep.get b %s - %d" % (STREAM[:2 * slen] or "-", n))
+            ops.append("ep.getmost b %s - %d" % (STREAM[:2 * slen] or "-", n))
+    for cap in (0, 1, 2, 4, 7):
+        for n in range(1, 9):
+            sc = ("k%d" % n) if n <= cap else "h:enomem"
+            ops.append("ep.put b:%d %s %s" % (cap, sc, STREAM[:2 * n]))
+            ops.append("ep.putmost b:%d %s %s" % (cap, sc, STREAM[:2 * n]))
+    for fn in ("cbc", "n_cbc", "drain_cbc", "n", "drain"):
+        for slen in (0, 1, 3, 6, 8):
+            for cap in (0, 1, 3, 6, 8, 12):
+                for n in sorted({0, 1, 2, slen, slen + 1, cap, cap + 1}):
+                    ksc = ",".join(["k1"] * cap + ["h:enomem"])
+                    for sk, kk in (("b", "b:%d" % cap), ("b", rnd.choice("oc")), (rnd.choice("oc"), "b:%d" % cap)):
+                        ops.append("sts %s %s %s - %s %s %d 4 0 0" % (fn, sk, STREAM[:2 * slen] or "-", kk,
+                                                                     ksc if kk.startswith("b") else "-", n))
+    for i in range(0, len(ops), 300):
+        cs.append(Case("buffers-%d" % i, ops[i:i + 300], ("buffer-endpoints",)))
     # transfer counts that do not fit 32 bits: every residue an errno could alias (2^32 - e for the errno values the
     # loops test for and their neighbours), powers of two and their neighbours; the caller's buffer is address space only
     huge = []
